@@ -9,9 +9,13 @@ open SamVerif.C03
 #print axioms merge_total_partial
 #print axioms ts_literal_closed_counterexample
 #print axioms ts_literal_closed_partial
-#print axioms exhaustive_no_fallback_counterexample
-#print axioms lower_correct_counterexample
-#print axioms lower_correct_partial
+#print axioms lower_correct
 #print axioms lowering_total
 #print axioms abstract_typed
-#print axioms exhaustive_no_fallback_partial
+#print axioms exhaustive_no_fallback
+#print axioms exec_refines_eval
+#print axioms bindings_correct
+#print axioms bindings_frame
+#print axioms bindings_complete
+#print axioms iflet_correct
+#print axioms let_destructure_total
